@@ -115,6 +115,7 @@ type Proxy struct {
 	throttle   [2]int // bytes per second, 0 = off
 	readThr    [2]int // slow reader: payload bytes per second consumed from the sender, 0 = off
 	torn       []string
+	resets     int
 	DrainFor   time.Duration // how long a FIN-killed connection is still read before it is closed (default 2 s)
 	rawCut     *RawFault
 	rawBytes   [2]int64
@@ -199,7 +200,21 @@ func (p *Proxy) SetThrottle(d Dir, bps int) {
 func (p *Proxy) SetReadThrottle(d Dir, bps int) {
 	p.mu.Lock()
 	p.readThr[d] = bps
+	var cs []*pconn
+	for _, c := range p.conns {
+		cs = append(cs, c)
+	}
 	p.mu.Unlock()
+	// small receive buffers on the throttled side, so that the kernel absorbs as little as possible
+	for _, c := range cs {
+		src := c.s
+		if d == C2S {
+			src = c.c
+		}
+		if t, ok := src.(*net.TCPConn); ok && bps > 0 {
+			t.SetReadBuffer(64 << 10)
+		}
+	}
 }
 
 // TornFrames lists connections whose sender ended the stream in the middle of a frame although the
@@ -208,6 +223,13 @@ func (p *Proxy) TornFrames() []string {
 	p.mu.Lock()
 	defer p.mu.Unlock()
 	return append([]string(nil), p.torn...)
+}
+
+// Resets counts streams that ended inside a frame or message with a connection reset (not an orderly end).
+func (p *Proxy) Resets() int {
+	p.mu.Lock()
+	defer p.mu.Unlock()
+	return p.resets
 }
 
 // ServerEOFs counts FIN-killed connections on which the server has closed its side too.
@@ -594,6 +616,17 @@ func (p *Proxy) frameRelay(pc *pconn, d Dir, src *bufio.Reader, dst net.Conn) {
 		}
 		var hdr [14]byte
 		if _, err := io.ReadFull(src, hdr[:2]); err != nil {
+			if pc.fragOpen[d] && atomic.LoadInt32(&pc.dead) == 0 && atomic.LoadInt32(&pc.black) == 0 && err != io.EOF && err != io.ErrUnexpectedEOF {
+				p.mu.Lock()
+				p.resets++
+				p.mu.Unlock()
+				core.Log.Note("px.reset", fmt.Sprintf("c%d %s inside a fragmented message: %v", pc.n, d, err))
+			} else if pc.fragOpen[d] && atomic.LoadInt32(&pc.dead) == 0 && atomic.LoadInt32(&pc.black) == 0 {
+				p.mu.Lock()
+				p.torn = append(p.torn, fmt.Sprintf("%s conn %d: the sender ended the stream inside a fragmented message (%d bytes of it sent, final fragment missing): %v", d, pc.n, len(pc.fragBuf[d]), err))
+				p.mu.Unlock()
+				core.Log.Note("px.torn", fmt.Sprintf("c%d %s message open at end of stream", pc.n, d))
+			}
 			return
 		}
 		hl := 2
@@ -637,7 +670,7 @@ func (p *Proxy) frameRelay(pc *pconn, d Dir, src *bufio.Reader, dst net.Conn) {
 		p.mu.Unlock()
 		var rerr error
 		got := 0
-		if rthr > 0 && plen > 1<<16 {
+		if rthr > 0 {
 			const slice = 1 << 16
 			for got < len(payload) && rerr == nil {
 				end := got + slice
@@ -653,7 +686,13 @@ func (p *Proxy) frameRelay(pc *pconn, d Dir, src *bufio.Reader, dst net.Conn) {
 			got, rerr = io.ReadFull(src, payload)
 		}
 		if rerr != nil {
-			if got > 0 && atomic.LoadInt32(&pc.dead) == 0 && atomic.LoadInt32(&pc.black) == 0 {
+			if got > 0 && atomic.LoadInt32(&pc.dead) == 0 && atomic.LoadInt32(&pc.black) == 0 && rerr != io.ErrUnexpectedEOF {
+				// a reset, not an orderly end of stream: the kernel may have discarded data the sender had written
+				p.mu.Lock()
+				p.resets++
+				p.mu.Unlock()
+				core.Log.Note("px.reset", fmt.Sprintf("c%d %s inside a frame: %v", pc.n, d, rerr))
+			} else if got > 0 && atomic.LoadInt32(&pc.dead) == 0 && atomic.LoadInt32(&pc.black) == 0 {
 				p.mu.Lock()
 				p.torn = append(p.torn, fmt.Sprintf("%s conn %d: the sender ended the stream inside a frame (op=%d, %d of %d payload bytes): %v", d, pc.n, opcode, got, plen, rerr))
 				p.mu.Unlock()
